@@ -69,8 +69,21 @@ DEFS: dict = {}   # sympy Symbol -> Definition   (names are unique per process)
 _counter = itertools.count(1)
 
 
+_DEF_MEMO: dict = {}
+
+
 def define(kind, dim, body):
+    """the same definition (kind, axis, body) always gets the same symbol: re-executed paths then share their path conditions"""
     body = sp.sympify(body)
+    mkey = (kind, dim.name, body)
+    if mkey in _DEF_MEMO:
+        return _DEF_MEMO[mkey]
+    s = _define(kind, dim, body)
+    _DEF_MEMO[mkey] = s
+    return s
+
+
+def _define(kind, dim, body):
     dummy = sp.Dummy(f"j_{dim.name}", integer=True, nonnegative=True)
     body = body.subs(dim.k, dummy)
     n = next(_counter)
